@@ -89,6 +89,8 @@ def C07(ctx):
     ctx.run(sp, nontrivial=cyc, runtime=False)
     if not ctx.quick:
         ctx.run(ctx.export('FamilyGSplit(p, 4)', pre_sample=4000), nontrivial=cyc, runtime=False)
+    # termination on incomplete programs too: a missing input under a binding / under the parent of a selected field
+    ctx.run(ctx.export('FamilyX(p, {"missing-under-fieldsof-parent", "missing-behind-bind", "missing-behind-bind-2", "two-fieldsof-items"})'), nontrivial=lambda c: True, runtime=False)
     sc = ctx.export('FamilyLattice(p, {6, 10, 20, 40})') + ctx.export('FamilyChain(p, {50, 150})')
     # one package per invocation, with the verif hooks' loop counters: iterations of the cycle search and of the planner
     # must stay within WorkBound (quadratic in nodes + edges, far below the number of paths); without counters the timeout is the criterion
